@@ -217,4 +217,65 @@ example :
     sortPreferred none l = [⟨true, 3, 0⟩, ⟨false, 1, 0⟩, ⟨false, 2, 0⟩, ⟨true, 4, 0⟩, ⟨false, 5, 0⟩] := by
   decide
 
+/-! ## Sorting twice is sorting once
+
+An algebraic law of the routine as a whole: the sorted answer is a fixed point (a caller that sorts an already
+sorted list - e.g. a resolver layered on a sorting resolver - changes nothing). -/
+
+theorem find_none_sub (q : Addr → Bool) (l r : List Addr) (hs : ∀ a ∈ r, a ∈ l) (h : l.find? q = none) :
+    r.find? q = none ∧ r.eraseP q = r := by
+  have hn : ∀ a ∈ r, ¬ q a = true := fun a ha => by
+    have := List.find?_eq_none.mp h a (hs a ha); simpa using this
+  exact ⟨List.find?_eq_none.mpr (fun a ha => by simpa using hn a ha), List.eraseP_of_forall_not hn⟩
+
+/-- **Sorting is idempotent.** Sorting an already sorted answer changes nothing. -/
+theorem C16_idempotent (prefer : Option Fam) (l : List Addr) :
+    sortPreferred prefer (sortPreferred prefer l) = sortPreferred prefer l := by
+  simp only [C16_eq_spec]
+  have hd := prefOther_disjoint prefer
+  have ho := pref_or_other prefer
+  unfold spec
+  generalize prefPred prefer = p at *
+  generalize otherPred prefer = q at *
+  cases hp : l.find? p with
+  | none =>
+    have e1 : l.eraseP p = l := (find_none_sub p l l (fun _ h => h) hp).2
+    cases hq : l.find? q with
+    | none =>
+      cases l with
+      | nil => simp
+      | cons a t =>
+        have h1 := List.find?_eq_none.mp hp a List.mem_cons_self
+        have h2 := List.find?_eq_none.mp hq a List.mem_cons_self
+        have := ho a (by simpa using h1)
+        simp_all
+    | some b =>
+      have hb : q b = true := List.find?_some hq
+      have hpb : p b = false := by
+        cases h : p b
+        · rfl
+        · have := hd b h; simp_all
+      simp only [e1, Option.toList_none, Option.toList_some, List.nil_append, List.singleton_append]
+      have hsub : ∀ a ∈ l.eraseP q, a ∈ l := fun a h => List.mem_of_mem_eraseP h
+      have := find_none_sub p l (l.eraseP q) hsub hp
+      simp [hpb, hb, this.1, this.2]
+  | some a =>
+    have ha : p a = true := List.find?_some hp
+    have hqa : q a = false := hd a ha
+    cases hq : l.find? q with
+    | none =>
+      have hsub : ∀ x ∈ l.eraseP p, x ∈ l := fun x h => List.mem_of_mem_eraseP h
+      have := find_none_sub q l (l.eraseP p) hsub hq
+      simp [ha, hqa, this.1, this.2]
+    | some b =>
+      have hb : q b = true := List.find?_some hq
+      have hpb : p b = false := by
+        cases h : p b
+        · rfl
+        · have := hd b h; simp_all
+      simp [ha, hqa, hb]
+
+example : sortPreferred none [⟨false, 1, 80⟩, ⟨false, 2, 80⟩, ⟨true, 3, 80⟩, ⟨true, 4, 80⟩]
+    = [⟨true, 3, 80⟩, ⟨false, 1, 80⟩, ⟨false, 2, 80⟩, ⟨true, 4, 80⟩] := by decide
+
 end Hd.Dns
